@@ -5,6 +5,9 @@ import SfntV.Model.CffFdselect
 import SfntV.Generated.Cff
 import SfntV.Spec.Cff
 import SfntV.Model.CffWidths
+import SfntV.Model.CffEncoding
+import SfntV.Model.CffStrings
+import SfntV.Model.CffWrite
 
 namespace SfntV.Drive.Cff
 open SfntV SfntV.Cff
@@ -87,9 +90,78 @@ def showFont (f : Spec.FontSummary) : String :=
   (match f.ros with
    | some (r, o, sup) => s!";cs:{natsToString f.charset};names:-;ros:{showStr r},{showStr o},{sup}"
    | none => s!";cs:-;names:{dashList ((f.names.getD []).map showStr)};ros:-") ++
-  s!";fds:{natsToString f.fds};privs:{"/".intercalate (f.privs.map showPriv)};w:{",".intercalate (f.widths.map showDec)}"
+  s!";fds:{natsToString f.fds};privs:{"/".intercalate (f.privs.map showPriv)};w:{",".intercalate (f.widths.map showDec)}" ++
+  (match f.encoding with
+   | some e => s!";enc:{natsToString e}"
+   | none => "")
 
 @[noinline] def readFontWith (std : Array String) (b : Bytes) := Spec.readFont std b
+
+/-! parsing of the font description `name:…;strs:…;…` (see harness/area_cff.go, c13Font) -/
+
+def descFields (s : String) : List (String × String) :=
+  (s.splitOn ";").filterMap fun p =>
+    match p.splitOn ":" with
+    | [k, v] => some (k, v)
+    | _ => none
+
+def parseDashInts (s : String) : Option (List Int) := if s == "-" then some [] else parseIntList s
+
+def parseBlobStr (s : String) : Option String := do
+  let b ← parseBlob s
+  String.fromUTF8? (ByteArray.mk b.toArray)
+
+def parseDashStrs (s : String) : Option (List String) :=
+  if s == "-" then some [] else (s.splitOn ",").mapM parseBlobStr
+
+/-- `[-]<m>e<exp>` as the operand `dictNumber` produces: an int32 if integral, else the real in
+nine-digit form -/
+def parseDecOperand (s : String) : Option Operand := do
+  let (neg, t) := if s.startsWith "-" then (true, (s.drop 1).toString) else (false, s)
+  match t.splitOn "e" with
+  | [ms, es] =>
+    let m ← ms.toNat?
+    let e ← es.toInt?
+    if e ≥ 0 then
+      let v : Int := (m * 10 ^ e.toNat : Nat)
+      pure (.int (if neg then -v else v))
+    else if ms.length > 9 then none
+    else pure (.real neg (m * 10 ^ (9 - ms.length)) ((ms.length : Int) + e))
+  | _ => none
+
+def parsePrivIn (s : String) : Option PrivIn :=
+  match s.splitOn "." with
+  | [bv, ob, bs, bf, fb] => do
+    pure { blueValues := ← parseDashInts bv, otherBlues := ← parseDashInts ob, blueShift := ← bs.toInt?,
+           blueFuzz := ← bf.toInt?, forceBold := fb == "1" }
+  | _ => none
+
+def parseFontIn (desc : String) (cs : List Bytes) (dw nw : Int) : Option FontIn := do
+  let fs := descFields desc
+  let get (k : String) := (fs.find? (·.1 == k)).map (·.2)
+  let name ← (get "name").bind parseBlob
+  let strs ← (get "strs").bind fun v => (v.splitOn ",").mapM parseBlobStr
+  let ul ← get "ul"
+  let (ulp, ult) ← match ul.splitOn "," with
+    | [a, b] => some (a, b)
+    | _ => none
+  let ros ← (get "ros").bind fun v =>
+    if v == "-" then some none
+    else match v.splitOn "," with
+      | [r, o, sup] => do pure (some (← parseBlobStr r, ← parseBlobStr o, ← sup.toInt?))
+      | _ => none
+  let enc ← (match get "enc" with
+    | some v => (parseNatList v).map EncChoice.custom
+    | none => some EncChoice.standard)
+  pure { fontName := name, strs := strs, isFixedPitch := get "fixed" == some "1",
+         ulPos := ← parseDecOperand ulp, ulThick := ← parseDecOperand ult,
+         ulPosDefault := ulp == "-1e2", ulThickDefault := ult == "5e1",
+         ros := ros, names := ← (get "names").bind parseDashStrs, cids := ← (get "cs").bind parseDashInts,
+         enc := enc, fds := ← (get "fds").bind parseDashInts,
+         privs := ← (get "privs").bind fun v => (v.splitOn "/").mapM parsePrivIn,
+         charStrings := cs, defWidth := dw, nomWidth := nw }
+
+@[noinline] def writeFontWith (std : List String) (f : FontIn) := writeFont std f
 
 def prefixes : List String := ["cff."]
 
@@ -165,6 +237,27 @@ def handle (op : String) (fs : List (String × String)) : String :=
       | some l => natsToString l
       | none => "none"
     | _, _ => "bad-case"
+  else if op == "cff.encoding.enc" then
+    match (getField fs "enc").bind parseNatList, (getField fs "names").bind parseIntList with
+    | some e, some ns => showOutcome toHex (encodeEncoding e ns)
+    | _, _ => "bad-case"
+  else if op == "cff.encoding.read" then
+    match data, (getField fs "charset").bind parseIntList with
+    | some d, some cs => showOutcome natsToString (readEncoding d 0 cs)
+    | _, _ => "bad-case"
+  else if op == "cff.encoding.spec" then
+    match data, (getField fs "charset").bind parseNatList with
+    | some d, some cs =>
+      match specEncoding d 0 cs with
+      | some l => natsToString l
+      | none => "none"
+    | _, _ => "bad-case"
+  else if op == "cff.strings.lookup" then
+    match (getField fs "names").bind parseStrs with
+    | some ns =>
+      let (sids, custom) := stringsLookupAll Gen.cffStdStrings.toList [] ns.toList
+      s!"{natsToString sids};{dashList (custom.map showStr)}"
+    | none => "bad-case"
   else if op == "cff.widths.select" then
     match (getField fs "ws").bind parseIntList with
     | some ws =>
@@ -173,6 +266,20 @@ def handle (op : String) (fs : List (String × String)) : String :=
       s!"{showDec (Spec.Dec.ofFixed d)},{match nom with | some v => showDec (Spec.Dec.ofFixed v) | none => "inf"}" ++
       s!";dict={stored d},{match nom with | some v => stored v | none => "?"}"
     | none => "bad-case"
+  else if op == "cff.file.model" || op == "cff.file.passes" then
+    match getField fs "font", (getField fs "cs").bind parseBlobs, (getField fs "dw").bind String.toInt?,
+          (getField fs "nw").bind String.toInt? with
+    | some desc, some cs, some dw, some nw =>
+      match (parseFontIn desc cs dw nw).map (fun f =>
+          match getField fs "enckind" with
+          | some "std" => { f with enc := EncChoice.standard }
+          | some "exp" => { f with enc := EncChoice.expert }
+          | _ => f) with
+      | some f =>
+        if op == "cff.file.model" then showOutcome (fun r => toHex r.1) (writeFontWith Gen.cffStdStrings.toList f)
+        else showOutcome (fun r => toString r.2) (writeFontWith Gen.cffStdStrings.toList f)
+      | none => "bad-case"
+    | _, _, _, _ => "bad-case"
   else if op == "cff.file.rt" then
     -- the property: what was put in comes back; the expected summary is the description itself
     (getField fs "font").getD "bad-case"
